@@ -151,6 +151,27 @@ def reprTable : List (Int × String) := [
   (19, "1.5833333333333333"), (20, "1.6666666666666667"), (21, "1.75"), (22, "1.8333333333333333"),
   (23, "1.9166666666666667"), (24, "2.0")]
 
+/-- the doubles nearest to k/12 as exact fractions `(k, numerator, denominator)` (`(k/12).as_integer_ratio()`);
+    validated against CPython by the harness on every run -/
+def doubleTable : List (Int × Int × Nat) := [
+  (-24, -2, 1), (-23, -8631899285793451, 4503599627370496), (-22, -8256599316845909, 4503599627370496),
+  (-21, -7, 4), (-20, -7505999378950827, 4503599627370496), (-19, -7130699410003285, 4503599627370496),
+  (-18, -3, 2), (-17, -6380099472108203, 4503599627370496), (-16, -6004799503160661, 4503599627370496),
+  (-15, -5, 4), (-14, -5254199565265579, 4503599627370496), (-13, -4878899596318037, 4503599627370496),
+  (-12, -1, 1), (-11, -8256599316845909, 9007199254740992), (-10, -7505999378950827, 9007199254740992),
+  (-9, -3, 4), (-8, -6004799503160661, 9007199254740992), (-7, -5254199565265579, 9007199254740992),
+  (-6, -1, 2), (-5, -7505999378950827, 18014398509481984), (-4, -6004799503160661, 18014398509481984),
+  (-3, -1, 4), (-2, -6004799503160661, 36028797018963968), (-1, -6004799503160661, 72057594037927936),
+  (0, 0, 1), (1, 6004799503160661, 72057594037927936), (2, 6004799503160661, 36028797018963968),
+  (3, 1, 4), (4, 6004799503160661, 18014398509481984), (5, 7505999378950827, 18014398509481984),
+  (6, 1, 2), (7, 5254199565265579, 9007199254740992), (8, 6004799503160661, 9007199254740992),
+  (9, 3, 4), (10, 7505999378950827, 9007199254740992), (11, 8256599316845909, 9007199254740992),
+  (12, 1, 1), (13, 4878899596318037, 4503599627370496), (14, 5254199565265579, 4503599627370496),
+  (15, 5, 4), (16, 6004799503160661, 4503599627370496), (17, 6380099472108203, 4503599627370496),
+  (18, 3, 2), (19, 7130699410003285, 4503599627370496), (20, 7505999378950827, 4503599627370496),
+  (21, 7, 4), (22, 8256599316845909, 4503599627370496), (23, 8631899285793451, 4503599627370496),
+  (24, 2, 1)]
+
 def reprOf (k : Int) : List Char :=
   match reprTable.find? (·.1 = k) with
   | some p => p.2.toList
@@ -226,6 +247,21 @@ def denoteCif (s : List Char) : Option Op :=
     let c' ← denoteComp c
     return ⟨a', b', c'⟩
   | _ => none
+
+/-! ### the domain of the quantifier (used by the property theorems) -/
+
+/-- the translations of the quantifier: k/12 for k = -24 … 24 -/
+def ks : List Int := (List.range 49).map (fun (i : Nat) => (i : Int) - 24)
+
+def sg : List Int := [-1, 0, 1]
+
+def compOfK (k cx cy cz : Int) : Comp := ⟨cx, cy, cz, (k : Rat) / 12⟩
+
+/-- the printed row exists, contains no comma and denotes the row -/
+def compGood (ts : List Char) (c : Comp) : Bool :=
+  match compToCif ts c with
+  | some s => !s.contains ',' && decide (denoteComp s = some c)
+  | none => false
 
 /-! ## (b) the data items -/
 
